@@ -1,0 +1,1 @@
+//! Verification facade (cfg-gated): daser family.  See `crate::verif`.
